@@ -132,22 +132,40 @@ def check(tier, seed, replay=None):
                     import threading
                     before3 = srv.tree()
                     bad_status = []
-                    for rnd in range(12):
-                        names3 = ['ok%d_%d' % (rnd, k) for k in range(6)] + ['../escaped_%d_%d' % (rnd, k) for k in range(6)]
+                    for rnd in range(25):
+                        names3 = ['ok%d_%d' % (rnd, k) for k in range(16)] + ['../escaped_%d_%d' % (rnd, k) for k in range(16)]
                         rng.shuffle(names3)
-                        gate = threading.Event()
-
-                        def one(nm):
-                            gate.wait()
-                            st, _ = srv.request('POST', '/api/v1/collections', {'name': nm, 'distance_function': 'euclidean', 'vector_size': 2, 'quantization': 64})
+                        # all connections are opened first and the requests written back to back, so that they reach the handlers together
+                        import socket
+                        socks = []
+                        for nm in names3:
+                            body3 = json.dumps({'name': nm, 'distance_function': 'euclidean', 'vector_size': 2, 'quantization': 64}).encode()
+                            req = (b'POST /api/v1/collections HTTP/1.1\r\nHost: x\r\nContent-Type: application/json\r\nConnection: close\r\nContent-Length: %d\r\n\r\n' % len(body3)) + body3
+                            try:
+                                c_ = socket.create_connection(('127.0.0.1', srv.port), timeout=20)
+                                socks.append((nm, c_, req))
+                            except OSError:
+                                pass
+                        for nm, c_, req in socks:
+                            try:
+                                c_.sendall(req)
+                            except OSError:
+                                pass
+                        for nm, c_, req in socks:
+                            try:
+                                data = b''
+                                while True:
+                                    chunk = c_.recv(65536)
+                                    if not chunk:
+                                        break
+                                    data += chunk
+                                st = int(data.split(b' ', 2)[1]) if data.startswith(b'HTTP/') else 'dropped'
+                            except (OSError, ValueError, IndexError):
+                                st = 'dropped'
+                            finally:
+                                c_.close()
                             if nm.startswith('..') and st not in (400, 'dropped'):
                                 bad_status.append((nm, st))
-                        ts = [threading.Thread(target=one, args=(nm,)) for nm in names3]
-                        for t in ts:
-                            t.start()
-                        gate.set()
-                        for t in ts:
-                            t.join()
                         stats['server_requests'] += len(names3)
                         for nm in names3:
                             if not nm.startswith('..'):
